@@ -11,7 +11,7 @@
 From Coq Require Import String List ZArith NArith Bool.
 Import ListNotations.
 From Selfies Require Import Base Generated Atoms Grammar Decoder PySet Matching Smiles Kekulize Encoder
-  IndexSpec IndexCode Reader RoundTrip EncoderFacts PureFacts EncAttr EncStereo EncChir EncRing EncRingM.
+  IndexSpec IndexCode Reader RoundTrip EncoderFacts PureFacts EncAttr EncStereo EncChir EncRing EncRingM EncRingOrd EncRingMk.
 Local Open Scope string_scope.
 
 Definition C04_full_statement : Prop :=
@@ -50,7 +50,7 @@ Proof. exact encoder_tags_faithful. Qed.
    the kekulised graph (rv = the same bond as stored at the opening atom); when b is single and one of the two carries
    a mark, the prefix of the ring symbol is exactly [mark of rv; mark of b] with '-' for a missing one - the form the
    decoder's ring cache reads back as (left mark, right mark) - and both marks are the ones stored in the same slots of
-   the reader's graph.  Not covered: that those are the marks written at the two ring digits of the SMILES. *)
+   the reader's graph.  That those are marks written at ring digits of the SMILES is the next theorem. *)
 Theorem C04_ring_marks_faithful_partial : forall T smiles strict attribute x maps,
   encoder T smiles strict attribute = Ok (x, maps) ->
   exists m0 m tss, smiles_to_mol smiles attribute = Ok m0 /\ x = join (lit ".") (map (@concat N) tss) /\ Forall (TW (ring_marks m0 m)) tss.
@@ -59,6 +59,24 @@ Proof. exact encoder_ring_marks. Qed.
 Example C04_ring_marks_example :
   match encoder default_constraints (lit "C/1=C/CCCCCC1") true false with
   | Ok (x, _) => str_eqb x (lit "[C][=C][/C][C][C][C][C][C][/-Ring1][Branch2]")
+  | Err _ => false end = true.
+Proof. vm_compute. reflexivity. Qed.
+
+(* marks of ring-closure bonds, reader side included (proofs/EncRingOrd.v, proofs/EncRingMk.v): an invariant of the reader's
+   token loop (ring_of, with RLog on the ring log) shows that each of the two stored directions of a ring bond carries a
+   mark written at one of a pair of ring-digit tokens of the input with the same label, and the order written there;
+   composed with the previous theorem: for every ring symbol of the output there are marks sl, sr, each written at a
+   ring digit of such a pair, and when the bond is printed single (ob = 2; the written order o0 is then single or the
+   aromatic 1.5) and one of the two marks is present, the symbol's prefix is exactly [sl; sr], '-' for a missing one.
+   Not covered: at which of the two digits of its pair each mark is written, and that both pairs are the same pair. *)
+Theorem C04_ring_marks_as_written_partial : forall T smiles strict attribute x maps ts,
+  encoder T smiles strict attribute = Ok (x, maps) -> tokenize_smiles smiles = Ok ts ->
+  exists tss, x = join (lit ".") (map (@concat N) tss) /\ Forall (TW (ring_marks_written ts)) tss.
+Proof. exact encoder_ring_marks_written. Qed.
+
+Example C04_ring_marks_as_written_example :
+  match encoder default_constraints (lit "C1=C/CCCCCC/1.F/C=C/1CCCC\1") true false with
+  | Ok (x, _) => str_eqb x (lit "[C][=C][/C][C][C][C][C][C][-/Ring1][Branch2].[F][/C][=C][C][C][C][C][/\Ring1][Branch1]")
   | Err _ => false end = true.
 Proof. vm_compute. reflexivity. Qed.
 
@@ -78,3 +96,4 @@ Print Assumptions C04_adjacent_swap_flips_parity_partial.
 Print Assumptions C04_chain_marks_faithful_partial.
 Print Assumptions C04_tags_outside_rings_faithful_partial.
 Print Assumptions C04_ring_marks_faithful_partial.
+Print Assumptions C04_ring_marks_as_written_partial.
